@@ -98,7 +98,7 @@ theorem ibit_pyNot (x : Int) (k : Nat) : ibit (pyNot x) k = !ibit x k := by
     have : -(Int.ofNat m) - 1 = Int.negSucc m := by simp [Int.negSucc_eq]; omega
     rw [this, ibit_negSucc, ibit_ofNat']
   | negSucc m =>
-    have : -(Int.negSucc m) - 1 = Int.ofNat m := by simp [Int.negSucc_eq]; omega
+    have : -(Int.negSucc m) - 1 = Int.ofNat m := by simp [Int.negSucc_eq]
     rw [this, ibit_negSucc, ibit_ofNat']; simp
 
 /-- floor shift right moves bit `k + n` to bit `k` -/
